@@ -111,6 +111,7 @@ func makeBounds(thorough bool) *bounds {
 		}
 		b.feeExtra = []int64{3000}
 		b.dust = dustFamily(true)
+		feeRatesFamily = []int64{1000, 5000, 10000}
 		b.desc = fmt.Sprintf("states: every 1-coin state (4 address types x 2 accounts x %d statuses = %d), every unordered pair of those %d coins with at least one coin on account 0 (%d; pairs with both coins on account 1 mirror the account-0 pairs), and 3-coin states {a,b,c} with a over the %d account-0 coins and (b,c) over %s (%d); additional fee rate 3000 sat/kvB for signed CreateSimpleTx coin selection; %s",
 			numStatus, len(all), len(all), len(b.pairs), len(acct0), strings.Join(fs, ", "), len(b.triples), dustDesc(true, len(b.dust)))
 	} else {
@@ -136,8 +137,9 @@ func makeBounds(thorough bool) *bounds {
 const randomReps = 40
 
 // feeRatesFamily: at 1000 sat/kvB the small coin (400 sat) yields positively
-// for every address type, at 5000 only as P2WKH / P2TR, at 10000 for none.
-var feeRatesFamily = []int64{1000, 5000, 10000}
+// for every address type, at 10000 for none, at 5000 (thorough tier only) as
+// P2WKH / P2TR but not as P2PKH / NP2WKH.
+var feeRatesFamily = []int64{1000, 10000}
 
 // dustFamily returns the states of the built-in strategy family.
 func dustFamily(thorough bool) [][]CoinSpec {
@@ -197,7 +199,7 @@ const requestRule = "coin i of a state receives (i+1)*1000000+100000 sat; status
 	"(c) the duplicated selection [c,c] of every eligible coin c through CreateSimpleTx, SendOutputsWithInput, FundPsbt; " +
 	"(d) for minconf<=1 and a non-empty eligible set: every ordering of {10000, 10000, sum(eligible)-2000} as three successive SendOutputs with accepted broadcasts (Quiesce after each) x strategy {CoinSelectionLargest, smallest-coin-first order}; the change outputs of earlier sends join the oracle's coin set. " +
 	"(e) for key scope nil, each account with a non-empty eligible set and the smallest minconf of the state: SendOutputs(10000, Largest), then a resynchronisation whose rebroadcast answers range over {accept, chain.ErrTxAlreadyInMempool}^n (n = number of transactions still unconfirmed: the state's unconfirmed receipts/spenders and the first send), then a second SendOutputs; 1-coin states: resynchronisation by Wallet.Rescan and by restart (stop, open, attach, unlock, LockOutpoint re-applied), second amount {10000, sum(eligible)-2000}; larger states: Wallet.Rescan and 10000 only. " +
-	"(f) built-in strategy family (states with a small coin of 400 sat, see bounds): key scope {nil, scope of the small coin} x account {0, 1} x minconf ({0,1} if a coin is unconfirmed else {1}) x fee rate {1000, 5000, 10000} sat/kvB (the small coin yields positively for every type / only as P2WKH, P2TR / for no type) x amount {10000 sat (one coin), largest positively yielding eligible coin + 50000 (at least two inputs), sum of the positively yielding eligible coins minus the fee of spending them all (all of them)} x entry point {CreateSimpleTx signed, FundPsbt, SendOutputs} x strategy {wallet.CoinSelectionLargest once, wallet.CoinSelectionRandom} (the two strategies the wallet exports). CoinSelectionRandom arranges with rand.Shuffle, which the harness cannot steer: each such request is REPEATED 40 times (2 times when fewer than two coins are eligible) - this part is repetition of a randomised implementation choice, not enumeration; the oracle is order-independent (inputs eligible, each once, signatures valid), the random_* counters report how many input orders were actually observed (results of CreateSimpleTx and SendOutputs; FundPsbt sorts the inputs of its packet, so its results say nothing about the arrangement drawn). " +
+	"(f) built-in strategy family (states with a small coin of 400 sat, see bounds): key scope {nil, scope of the small coin} x account {0, 1} x minconf ({0,1} if a coin is unconfirmed else {1}) x fee rate {1000, 10000; thorough tier also 5000} sat/kvB (the small coin yields positively for every type at 1000, for no type at 10000, only as P2WKH or P2TR at 5000) x amount {10000 sat (one coin), largest positively yielding eligible coin + 50000 (at least two inputs), sum of the positively yielding eligible coins minus the fee of spending them all (all of them)} x entry point {CreateSimpleTx signed, FundPsbt, SendOutputs} x strategy {wallet.CoinSelectionLargest once, wallet.CoinSelectionRandom} (the two strategies the wallet exports). CoinSelectionRandom arranges with rand.Shuffle, which the harness cannot steer: each such request is REPEATED 40 times (2 times when fewer than two coins are eligible) - this part is repetition of a randomised implementation choice, not enumeration; the oracle is order-independent (inputs eligible, each once, signatures valid), the random_* counters report how many input orders were actually observed (results of CreateSimpleTx and SendOutputs; FundPsbt sorts the inputs of its packet, so its results say nothing about the arrangement drawn). " +
 	"States holding a coinbase coin additionally use minconf = confs and confs+1 of every coinbase coin and of the deepest non-coinbase coin. " +
 	"oracle: eligible iff credited to the requested account (and scope unless nil), unspent by any known tx, not locked, no active lease, confs>=minconf, coinbase confs>=maturity, all from the harness' record of the state; every input of every success must be eligible and distinct, explicit selections containing an ineligible coin must fail, inputs of explicit requests are selected ones, later sends never reuse inputs of earlier published, still unconfirmed ones (also across a resynchronisation), every input of a signed result passes txscript.Engine with StandardVerifyFlags, payable requests fail only for lack of funds. " +
 	"A published send is undone with TxStore.RemoveUnminedTx and the store compared with the base snapshot; the first witness of every signature is re-executed on a freshly built state before it is reported. " +
